@@ -9,7 +9,7 @@ META = {
         "with size the 10-bit big-endian length (under the gate facts) and the raw frame is the concatenation of all read results once, "
         "in read order (byte-concatenation domain); D3 the read primitive's contract by interval reasoning over its path conditions; "
         "D4 the CRC gate of the static parser (DNF); D5 payload slice message[3:-3]; D6 the stream has a single consumer and is never "
-        "repositioned; D7 what read() can return; plus the shared CRC transfer function (C08-D1), identity bits (C15-D1) and the verbatim payload store (C07-D3). "
+        "repositioned; D7 what read() can return; plus the shared CRC transfer function (C08-D1), identity bits (C15-D1), the verbatim payload store (C07-D3) and - because a socket-backed reader's input stream is what the wrapper hands on - the wrapper's FIFO discipline (C11-D1..D5) and the chunk decoder's conservation rules (C12-D1..D5). "
         "By induction over loop iterations these imply the statement; the induction itself is an argument, not mechanised."
     ),
     "trusted": ["CPython ast parser", "sa/symeval.py, sa/domains.py", "oracle/frames.json", "assumption: the stream's read(n) returns at most n bytes, in order"],
@@ -37,6 +37,11 @@ def run(eng, ctx):
     from . import C11 as SOCKET
 
     SOCKET.run(eng, ctx)
+    # ... and, for a socket read with chunked transfer-encoding, on the chunk decoder handing every decoded byte on exactly once whatever the
+    # receive boundaries (C12, shared): a chunk emitted and also carried over is delivered twice - "non-overlapping slices in stream order"
+    from . import C12 as CHUNKED
+
+    CHUNKED.run(eng, ctx, with_socket=False)
     nsites = sum(1 for q in eng.functions_reaching(eng.read_primitive) for e in eng.symeval(q).effects if e.kind == "call" and e.term[2] == ("attr", ("self",), eng.read_primitive.rsplit(".", 1)[1]))
     ctx.instance("read-primitive call sites", nsites, 7)
     ctx.assume("the underlying stream's read(n) returns at most n bytes, in stream order")
